@@ -304,12 +304,14 @@ VERSION_PATTERN = r"""
 
 class Version(_BaseVersion):
 
-    _regex = re.compile(r"^\s*" + VERSION_PATTERN + r"\s*$", re.VERBOSE | re.IGNORECASE)
+    _regex = re.compile(r"^\s*" + VERSION_PATTERN + r"\s*$", re.VERBOSE | re.IGNORECASE | re.ASCII)
 
     def __init__(self, version: str) -> None:
 
         # Validate the version and parse it into pieces
-        match = self._regex.search(version)
+        # NOTE: surrounding (unicode) whitespace is stripped, the version
+        #   itself is matched as ascii (no case folding of e.g. "\u017f" to "s")
+        match = self._regex.search(version.strip())
         if not match:
             raise InvalidVersion(f"Invalid version: '{version}'")
 
